@@ -60,7 +60,8 @@ const int64_t kFarSec = 4294967;                                   // 2^32 ms
 // configuration shared by both subs
 // ------------------------------------------------------------------------------------------------
 enum { TZ, WEEKLY, ONESHOT, WORKDAY, DAY, CRON, CF, TIME,         // common prefix of both op tables
-       /* lifecycle only: */ EN, DIS, REF, ADV, EARLY, SKEW, STEP, CALMASK, DAYCLR, CBMODE };
+       /* lifecycle only: */ EN, DIS, REF, ADV, EARLY, SKEW, STEP, CALMASK, DAYCLR, CBMODE,
+       /* both subs: re-initialise the SAME alarm object with a new configuration of its kind */ RECONF };
 enum Kind { K_WEEKLY, K_ONESHOT, K_WORKDAY, K_CRON };
 const char *kKindName[] = {"kind_weekly", "kind_oneshot", "kind_workday", "kind_cron"};
 
@@ -246,22 +247,31 @@ struct Subject {
   std::string create(const Config &c) {
     kind = c.kind;
     loop.reset(tbox::event::Loop::New());
-    bool ok = false;
     switch (c.kind) {
+      case K_WEEKLY: w.reset(new WeeklyProbe(loop.get())); a = w.get(); break;
+      case K_ONESHOT: o.reset(new OneshotProbe(loop.get())); a = o.get(); break;
+      case K_WORKDAY: cal.reset(new tbox::alarm::WorkdayCalendar); wd.reset(new WorkdayProbe(loop.get())); a = wd.get(); break;
+      default: cr.reset(new CronProbe(loop.get())); a = cr.get(); break;
+    }
+    std::string e = init(c);
+    a->setTimezone(c.tz_min);
+    return e;
+  }
+  // initialize() of the EXISTING object with configuration c (same kind); also used to reconfigure it later
+  std::string init(const Config &c) {
+    bool ok = false;
+    switch (kind) {
       case K_WEEKLY: {
-        w.reset(new WeeklyProbe(loop.get())); a = w.get();
         std::string m(7, '0');
         for (int i = 0; i < 7; ++i) m[i] = ((c.mask >> i) & 1) ? '1' : (c.mask_style == 0 ? '0' : (c.mask_style == 1 ? '-' : 'x'));
         ok = w->initialize(c.sod, m); break; }
-      case K_ONESHOT: o.reset(new OneshotProbe(loop.get())); a = o.get(); ok = o->initialize(c.sod); break;
+      case K_ONESHOT: ok = o->initialize(c.sod); break;
       case K_WORKDAY:
-        cal.reset(new tbox::alarm::WorkdayCalendar);
         cal->updateWeekMask((uint8_t)c.cal_mask);
         cal->updateSpecialDays(c.special);
-        wd.reset(new WorkdayProbe(loop.get())); a = wd.get(); ok = wd->initialize(c.sod, cal.get(), c.workday_flag); break;
-      default: cr.reset(new CronProbe(loop.get())); a = cr.get(); ok = cr->initialize(c.cron_text); break;
+        ok = wd->initialize(c.sod, cal.get(), c.workday_flag); break;
+      default: ok = cr->initialize(c.cron_text); break;
     }
-    a->setTimezone(c.tz_min);
     if (!ok) return "initialize() rejected a configuration of the documented shape" + (c.kind == K_CRON ? " (cron \"" + c.cron_text + "\")" : std::string());
     return "";
   }
@@ -297,6 +307,25 @@ int64_t time_of(const Op &op) {   // local time of a TIME op: day, time of day, 
 }
 int64_t clamp_utc(int64_t u) { return u < kMinUtc ? kMinUtc : (u > kMaxUtc ? kMaxUtc : u); }
 
+// RECONF op at index k: `reconf via sodmode sod p1 p2 enable` describes a NEW configuration of the same kind and time zone for the
+// existing alarm object (weekly: p1 = mask, p2 = mask style; workday: p1 = workdays/holidays, p2 = calendar week mask).  The cf ops
+// (cron) / day ops (workday) that follow it immediately belong to it: they form the new expression / the new calendar content (days
+// relative to the local day at the moment of the reconfiguration).  Returns the index of the first op that is not consumed.
+size_t reconf_config(const Scenario &s, size_t k, const Config &old, int64_t anchor_local, Config &nc) {
+  const Op &op = s.ops[k];
+  Scenario t;
+  Op o; o.code = TZ; o.a = {old.tz_min + 720}; t.ops.push_back(o);
+  o.code = old.kind == K_WEEKLY ? WEEKLY : (old.kind == K_ONESHOT ? ONESHOT : (old.kind == K_WORKDAY ? WORKDAY : CRON));
+  o.a = {op.arg(1), op.arg(2), op.arg(3), op.arg(4)};
+  t.ops.push_back(o);
+  size_t e = k + 1;
+  const int follow = old.kind == K_CRON ? CF : (old.kind == K_WORKDAY ? DAY : -1);
+  while (e < s.ops.size() && s.ops[e].code == follow) t.ops.push_back(s.ops[e++]);
+  nc = Config();
+  build_config(t, t.ops.size(), anchor_local, nc);
+  return e;
+}
+
 // ================================================================================================
 // sub next_instant
 // ================================================================================================
@@ -306,7 +335,7 @@ std::string run_next(const Scenario &s, CaseInfo &info) {
   if (first_q == s.ops.size()) return "";
   Config c;
   // TZ is needed to turn the anchor into local time; the anchor op itself is given in local time
-  build_config(s, s.ops.size(), time_of(s.ops[first_q]), c);
+  build_config(s, first_q, time_of(s.ops[first_q]), c);
   Subject sub;
   std::string e = sub.create(c);
   if (!e.empty()) { sub.destroy(false); return e; }
@@ -317,9 +346,28 @@ std::string run_next(const Scenario &s, CaseInfo &info) {
   const int64_t tz = c.tz_sec();
   int64_t prev_now = -1, prev_res = -1;
   int queries = 0;
+  bool reconfigured = false;
   std::string err;
   for (size_t k = first_q; k < s.ops.size() && queries < 12 && err.empty(); ++k) {
     const Op &op = s.ops[k];
+    if (op.code == RECONF && queries > 0) {
+      // the same object is re-initialised (after disable() or after cleanup()); later answers must follow the NEW configuration only
+      Config nc;
+      size_t e2 = reconf_config(s, k, c, prev_now + tz, nc);
+      int via = (int)op.in(0, 0, 1);
+      if (via == 0) sub.a->disable(); else sub.a->cleanup();
+      info.cls(via == 0 ? "reconf_after_disable" : "reconf_after_cleanup");
+      if (c.kind == K_WEEKLY) { info.cls_if((c.mask & ~nc.mask) != 0, "reconf_weekly_mask_drops_a_day"); info.cls_if(c.mask == nc.mask, "reconf_weekly_same_mask"); }
+      if (c.kind == K_WORKDAY) info.cls_if(c.workday_flag != nc.workday_flag, "reconf_workday_mode_flipped");
+      c = nc;
+      std::string ie = sub.init(c);
+      sub.a->setTimezone(c.tz_min);           // cleanup() drops the explicit time zone
+      if (!ie.empty()) { err = ie + " when re-initialising an existing alarm"; break; }
+      if (c.kind == K_CRON) { info.cls_if(c.cron_step, "cron_step"); info.cls_if(c.cron_list, "cron_list"); info.cls_if(c.cron_names, "cron_names"); }
+      reconfigured = true;
+      k = e2 - 1;
+      continue;
+    }
     if (op.code != TIME) continue;
     int64_t now;
     int mode = (int)op.in(0, 0, 4);
@@ -351,6 +399,7 @@ std::string run_next(const Scenario &s, CaseInfo &info) {
     if (!satisfies(c, next_utc)) { fail("reported instant does not satisfy the configuration"); continue; }
     if (next_utc != r.t) { fail(next_utc > r.t ? "an earlier matching instant exists" : "reference and predicate disagree (harness bug?)"); continue; }
     prev_res = next_utc;
+    info.cls_if(reconfigured, "answer_checked_after_reconf");
     // shape labels
     int64_t l0 = now + tz, l1 = next_utc + tz;
     bool cross_day = l1 / kDay != l0 / kDay;
@@ -390,7 +439,7 @@ struct Life {
   int64_t last_fired_T = -1;
   int cbmode = 0;
   // statistics
-  int fires = 0; bool far_target = false, far_fired = false, early_wake = false;
+  int fires = 0; bool far_target = false, far_fired = false, early_wake = false, reconfigured = false;
   // advance in progress
   int stops = 0;
 
@@ -436,6 +485,7 @@ struct Life {
     if (W < T * 1000000) { early_wake = true; info.cls("early_wake_by_skew"); }
     if (T - W_arm / 1000000 > kFarSec) { far_fired = true; info.cls("target_gt_49d_fired"); }
     last_fired_T = T;
+    info.cls_if(reconfigured, "fired_after_reconf");
     if (c.kind == K_ONESHOT) { armed = false; info.cls("oneshot_fired"); }
     else model_arm(std::max(T, wsec()));
     if (cbmode == 1) { sub.a->disable(); armed = false; free_pending = false; info.cls("disable_in_callback"); }
@@ -466,7 +516,7 @@ struct Life {
     const Op &op = s.ops[k];
     Micro m;
     switch (op.code) {
-      case EN: case REF: case STEP: case DAY: case DAYCLR: case CALMASK:
+      case EN: case REF: case STEP: case DAY: case DAYCLR: case CALMASK: case RECONF:
         // recomputing inside the few ms between a skew-induced early wake-up and the instant itself is ambiguous
         // (the instant is "still ahead" by the wall clock): first let the wall clock reach the instant
         m.kind = Micro::ADVANCE; m.a = -1; q.push_back(m);
@@ -528,8 +578,32 @@ struct Life {
     return m.a > 0;
   }
 
-  void do_op(const Op &op) {
+  void do_op(size_t k) {
+    const Op &op = s.ops[k];
     switch (op.code) {
+      case RECONF: {
+        // disable() or cleanup(), initialize() the SAME object with a new configuration, optionally enable(): from now on the
+        // instants and the firings follow the new configuration only
+        Config nc;
+        pc = reconf_config(s, k, c, wsec() + c.tz_sec(), nc);
+        int via = (int)op.in(0, 0, 1);
+        if (armed && T > wsec()) info.cls("reconf_with_pending_instant");
+        if (via == 0) sub.a->disable(); else sub.a->cleanup();
+        armed = false; free_pending = false;
+        info.cls(via == 0 ? "reconf_after_disable" : "reconf_after_cleanup");
+        if (c.kind == K_WEEKLY) info.cls_if((c.mask & ~nc.mask) != 0, "reconf_weekly_mask_drops_a_day");
+        if (c.kind == K_WORKDAY) info.cls_if(c.workday_flag != nc.workday_flag, "reconf_workday_mode_flipped");
+        c = nc;
+        std::string ie = sub.init(c);
+        if (via == 1) { sub.a->setTimezone(c.tz_min); sub.a->setCallback([this] { on_fire(); }); }   // cleanup() dropped both
+        if (!ie.empty()) { fail(ie + " when re-initialising an existing alarm"); break; }
+        reconfigured = true;
+        if (op.in(5, 0, 3) != 0) {
+          bool ret = sub.a->enable();
+          model_arm(wsec());
+          if (!free_pending && ret != armed) fail(ret ? "enable() after re-initialisation returned true although no instant exists" : "enable() after re-initialisation returned false although an instant exists");
+        }
+        break; }
       case EN: {
         bool was = armed;
         bool ret = sub.a->enable();
@@ -580,7 +654,7 @@ struct Life {
     switch (m.kind) {
       case Micro::ADVANCE: resolve(m); if (m.a == 0 || !advance_chunk(m)) q.pop_front(); break;
       case Micro::SKEWM: M += (uint64_t)m.a; skewed_since_arm = true; q.pop_front(); break;
-      case Micro::DO_OP: { size_t k = m.op; q.pop_front(); do_op(s.ops[k]); break; }
+      case Micro::DO_OP: { size_t k = m.op; q.pop_front(); do_op(k); break; }
     }
     settle = 2;
     return err.empty();
@@ -692,12 +766,25 @@ void g_config(Scenario &s, int64_t kind, bool far_bias) {
   }
 }
 
+// a reconfiguration of the same kind: the kind op of a fresh g_config() becomes the argument list of the reconf op, the cf / day ops
+// generated after it follow the reconf op (and are consumed by it)
+void g_reconf(Scenario &s, int64_t kind, bool far_bias) {
+  Scenario t;
+  g_config(t, kind, far_bias);
+  const Op &ko = t.ops[1];
+  int64_t via = *range(0, 1), en = *range(0, 3);
+  s.ops.push_back(op_of(RECONF, {via, ko.arg(0), ko.arg(1), ko.arg(2), ko.arg(3), en}));
+  for (size_t i = 2; i < t.ops.size(); ++i) s.ops.push_back(t.ops[i]);
+}
+
 rc::Gen<Scenario> gen_next() {
   return rc::gen::exec([]() {
     Scenario s;
-    g_config(s, *range(0, 3), false);
+    int64_t kind = *range(0, 3);
+    g_config(s, kind, false);
     int64_t nq = *range(1, 6);
     for (int64_t i = 0; i < nq; ++i) {
+      if (i > 0 && *range(0, 3) == 0) g_reconf(s, kind, false);
       int64_t mode = i == 0 ? 0 : *pick({{2, just(0)}, {4, just(1)}, {2, just(2)}, {1, just(3)}, {1, just(4)}});
       s.ops.push_back(op_of(TIME, {mode, g_day(), g_tod(), *range(0, 6)}));
     }
@@ -718,19 +805,20 @@ rc::Gen<Scenario> gen_life() {
       if (w < 12) s.ops.push_back(op_of(EN, {}));
       else if (w < 19) s.ops.push_back(op_of(DIS, {}));
       else if (w < 25) s.ops.push_back(op_of(REF, {}));
-      else if (w < 62) {
+      else if (w < 60) {
         int64_t mode = *pick({{1, just(0)}, {2, just(1)}, {2, just(2)}, {3, just(3)}, {3, just(4)}, {2, just(5)}, {1, just(6)}});
         int64_t amt = mode == 0 ? *range(0, 5000) : (mode == 1 ? *pick({{2, range(0, 200)}, {2, range(0, 200000)}}) : (mode == 5 ? *range(0, 70) : (mode == 6 ? *range(0, 434) : *range(0, 200000))));
         s.ops.push_back(op_of(ADV, {mode, amt, *range(0, 900)}));
       }
-      else if (w < 74) s.ops.push_back(op_of(EARLY, {*range(0, 19), *range(0, 19)}));
-      else if (w < 78) s.ops.push_back(op_of(SKEW, {*range(0, 19)}));
-      else if (w < 88) {
+      else if (w < 71) s.ops.push_back(op_of(EARLY, {*range(0, 19), *range(0, 19)}));
+      else if (w < 74) s.ops.push_back(op_of(SKEW, {*range(0, 19)}));
+      else if (w < 83) {
         int64_t mode = *range(0, 2);
         int64_t amt = mode == 0 ? *range(0, 6000000) : (mode == 1 ? *pick({{1, range(99990, 100010)}, {2, range(0, 200000)}}) : *range(0, 800));
         s.ops.push_back(op_of(STEP, {mode, amt, *range(0, 86399)}));
       }
-      else if (w < 93) s.ops.push_back(op_of(CBMODE, {*range(0, 1)}));
+      else if (w < 87) s.ops.push_back(op_of(CBMODE, {*range(0, 1)}));
+      else if (w < 93) g_reconf(s, kind, true);
       else if (kind == K_WORKDAY) {
         if (w < 97) s.ops.push_back(op_of(DAY, {*pick({{3, range(0, 12)}, {2, range(40, 400)}}), *range(0, 1)}));
         else if (w < 98) s.ops.push_back(op_of(DAYCLR, {}));
@@ -744,8 +832,8 @@ rc::Gen<Scenario> gen_life() {
 #endif
 
 const std::vector<const char*> kOpNames = {"tz", "weekly", "oneshot", "workday", "day", "cron", "cf", "time",
-                                           "enable", "disable", "refresh", "advance", "early", "skew", "step", "calmask", "dayclr", "cbmode"};
-const std::vector<int> kOpArity = {1, 4, 2, 4, 2, 0, 6, 6, 0, 0, 0, 3, 2, 1, 3, 1, 0, 1};
+                                           "enable", "disable", "refresh", "advance", "early", "skew", "step", "calmask", "dayclr", "cbmode", "reconf"};
+const std::vector<int> kOpArity = {1, 4, 2, 4, 2, 0, 6, 6, 0, 0, 0, 3, 2, 1, 3, 1, 0, 1, 6};
 
 SubDef def_next = [] {
   SubDef d; d.name = "next_instant";
